@@ -50,3 +50,23 @@ verif_aes_path(void)
 	return (-1);
 #endif
 }
+
+/*
+ * C03: the library's OWN self-test of the AES-NI code (the two FIPS-197 vectors), asked once more exactly as
+ * hwaccel_init() asks it.  0 = it passes, 1 = it FAILS (the library then falls back at run time), -1 = not compiled
+ * in.  It allocates (two expanded keys), so call it with a healthy allocator.  The entry counters are put back.
+ * Only to be called when the (forced) cpusupport flags report AES-NI.
+ */
+int
+verif_aes_selftest(void)
+{
+#if defined(HWACCEL) && defined(CPUSUPPORT_X86_AESNI)
+	uint64_t c1 = verif_aes_calls_aesni, c2 = verif_aes_calls_openssl;
+	int r = functest(x86_aesni_oneshot) != 0;
+
+	verif_aes_calls_aesni = c1; verif_aes_calls_openssl = c2;
+	return (r);
+#else
+	return (-1);
+#endif
+}
